@@ -116,6 +116,9 @@ var regexPool = []string{
 	// fully anchored plain texts: they match a message only if it IS that text (none is)
 	`^undefined$`, `\Alabel\z`, `^is not defined$`, `^could not parse as YAML$`,
 	`could not parse`,
+	// white space at the edge of a pattern is part of it: these match nothing (the messages have
+	// "is unknown." and start with "undefined"), their trimmed forms would
+	`is unknown `, ` undefined`, ` is not defined in object type `,
 }
 
 // patterns whose inline flags / quoting must stay confined to the pattern itself
@@ -213,7 +216,8 @@ type spec struct {
 	Paths    []pathsEntry `json:"paths"`
 	CfgName  string       `json:"config_name"` // "" = no config file
 	Extra    []string     `json:"extra_flags"`
-	RawArgs  []string     `json:"raw_args,omitempty"` // mode != 0: arguments verbatim
+	RawArgs  []string     `json:"raw_args,omitempty"`   // mode != 0: arguments verbatim
+	RawCfg   string       `json:"raw_config,omitempty"` // mode != 0: the repository's configuration file verbatim
 }
 
 type diagT struct {
@@ -300,7 +304,9 @@ func (l *layout) run(s *spec) (stdout string, status int) {
 	for _, n := range []string{"actionlint.yaml", "actionlint.yml"} {
 		os.Remove(filepath.Join(l.root, ".github", n))
 	}
-	if s.CfgName != "" {
+	if s.RawCfg != "" {
+		must(os.WriteFile(filepath.Join(l.root, ".github", "actionlint.yaml"), []byte(s.RawCfg), 0o644))
+	} else if s.CfgName != "" {
 		must(os.WriteFile(filepath.Join(l.root, ".github", s.CfgName), []byte(s.configText()), 0o644))
 	}
 	must(os.Chdir(l.cwd(s.CwdKind)))
@@ -430,17 +436,17 @@ func sameDiags(a, b []diagT) bool {
 }
 
 type failure struct {
-	What   string  `json:"what"`
-	Key    string  `json:"key"`
-	Spec   *spec   `json:"spec"`
+	What   string   `json:"what"`
+	Key    string   `json:"key"`
+	Spec   *spec    `json:"spec"`
 	Args   []string `json:"args"`
-	Cwd    string  `json:"cwd"`
-	Config string  `json:"config"`
-	Got    []diagT `json:"got"`
-	Want   []diagT `json:"want"`
-	GotEx  int     `json:"got_exit"`
-	WantEx int     `json:"want_exit"`
-	Stdout string  `json:"stdout"`
+	Cwd    string   `json:"cwd"`
+	Config string   `json:"config"`
+	Got    []diagT  `json:"got"`
+	Want   []diagT  `json:"want"`
+	GotEx  int      `json:"got_exit"`
+	WantEx int      `json:"want_exit"`
+	Stdout string   `json:"stdout"`
 }
 
 // evalSpec runs one invocation and applies the oracle; returns the parsed
@@ -679,7 +685,7 @@ func modeSpecs() []*spec {
 	mk := func(mode int, cwd string, args ...string) *spec {
 		return &spec{Mode: mode, CwdKind: cwd, Spelling: "raw", RawArgs: args}
 	}
-	return []*spec{
+	out := []*spec{
 		mk(1, "root", "-h"),
 		mk(1, "unrelated", "-help"),
 		mk(4, "root", "-version"),
@@ -692,6 +698,15 @@ func modeSpecs() []*spec {
 		mk(3, "unrelated", "-shellcheck=", "-pyflakes="),
 		mk(3, "root", "-shellcheck=", "-pyflakes=", "-config-file", "no/such/config.yaml", ".github/workflows/a.yml"),
 	}
+	// a broken configuration of the repository is a fatal error for one file, for several, for none
+	for _, cfg := range []string{"paths:\n  'a[':\n    ignore: [x]\n", "paths:\n  '**':\n    ignore: ['(unclosed']\n", "self-hosted-runner: [\n"} {
+		for _, files := range [][]string{{".github/workflows/a.yml"}, {".github/workflows/a.yml", ".github/workflows/b.yml"}, {}} {
+			s := mk(3, "root", append([]string{"-shellcheck=", "-pyflakes="}, files...)...)
+			s.RawCfg = cfg
+			out = append(out, s)
+		}
+	}
+	return out
 }
 
 func main() {
